@@ -154,12 +154,12 @@ class ProxyDevice(nfc.clf.device.Device):
                                  "%s, lock owner now %r" % (
                                      me.name, getattr(lock.owner, "name",
                                                       None))))
-        if name != "close" and me.name == "app0" and w.kbi_at:
+        if name not in ("close", "init") and me.name == "app0" and w.kbi_at:
             k = w.main_calls
             w.main_calls += 1
             if k in w.kbi_at:
                 kbi(w)              # Ctrl-C while the main thread is here
-        if name != "close" and n in w.fail_at:
+        if name not in ("close", "init") and n in w.fail_at:
             # the host link broke during this call
             w.failed_calls += 1
             code = errno.ENODEV if n % 2 else errno.EIO
@@ -460,7 +460,13 @@ def run(case, ctx):
     other = []
     saved_connect = nfc.clf.device.connect
     try:
-        nfc.clf.device.connect = lambda path: ProxyDevice(w)
+        def connect_driver(path):
+            # searching for and initialising the driver IS a driver call of
+            # open(): commands go to the reader
+            d = ProxyDevice(w)
+            d._call("init")
+            return d
+        nfc.clf.device.connect = connect_driver
         w.clf = nfc.clf.ContactlessFrontend()
         if case.get("opened", True):
             w.clf.open("usb")
